@@ -76,7 +76,22 @@ func init() {
 			return setPoint(a[0], g, pointScalar(a[1], g+".Set"))
 		})
 		reg(T+"String", func(fr *frame, fn *ssa.Function, a []Value) Value {
-			return StrV{S: "bn256." + g + "(…)"}
+			// not the library's text, but like it a function of the point and
+			// nothing else: equal strings <=> equal points (repository code
+			// compares points through String())
+			sc := pointScalar(a[0], g+".String")
+			bs := make([]*Term, 0, 40)
+			for _, c := range []byte("bn256." + g + "(") {
+				bs = append(bs, BVU(8, uint64(c)))
+			}
+			v := Int2BV(sc, 256)
+			for k := 31; k >= 0; k-- {
+				bs = append(bs, Extract(8*k+7, 8*k, v))
+			}
+			bs = append(bs, BVU(8, ')'))
+			st := mkStr(bs)
+			st.Tok = sc
+			return st
 		})
 	}
 	reg(bn256Pkg+".PairingCheck", func(fr *frame, fn *ssa.Function, a []Value) Value {
